@@ -9,6 +9,7 @@ import (
 	"golang.org/x/tools/go/ssa"
 
 	"mtverif/internal/core"
+	"mtverif/internal/fde"
 )
 
 // ---- failure edges ----
@@ -1014,3 +1015,173 @@ var ruleParseResults = &core.Rule{ID: "R08.3", Min: 4,
 			}
 		}
 	}}
+
+// R08.6: accounting pairing between the consumed-bytes count a scanner
+// function returns and the inspected-bytes counter.
+var ruleAccounting = &core.Rule{ID: "R08.6", Min: 18,
+	Doc: "inspected/consumed pairing: in every scanner function, within each straight-line region, the constant increments of the value that becomes the returned consumed-bytes count equal the number of +1 increments of the inspected-bytes counter (callee results account for themselves); the literal scanner, which returns len(literal), counts one inspected byte per matched byte; so on every success return the inspected counter grew by exactly the returned length",
+	Run: func(c *core.Ctx, s *core.Sink) {
+		m := getJSON(c)
+		ibF := -1
+		for _, r := range core.Returns(m.parse) {
+			if len(r.Results) > 1 {
+				if _, fld, ok := core.LoadOfField(spilled(r, 1)); ok {
+					ibF = fld
+				}
+			}
+		}
+		if ibF < 0 {
+			core.Bail("inspected-bytes field not identified")
+		}
+		for _, f := range m.famList {
+			// chain: int values flowing into the returned count
+			chain := map[ssa.Value]bool{}
+			var mark func(v ssa.Value)
+			mark = func(v ssa.Value) {
+				if v == nil || chain[v] || !core.IsInteger(v.Type()) {
+					return
+				}
+				switch x := v.(type) {
+				case *ssa.Phi:
+					chain[v] = true
+					for _, e := range x.Edges {
+						mark(e)
+					}
+				case *ssa.BinOp:
+					if x.Op == token.ADD {
+						chain[v] = true
+						mark(x.X)
+						mark(x.Y)
+					}
+				case *ssa.Parameter:
+					chain[v] = true
+				}
+			}
+			for _, r := range core.Returns(f) {
+				mark(r.Results[0])
+			}
+			// range-over-literal idiom: return len(X) after a full range over parameter X
+			exempt := map[*ssa.BasicBlock]bool{}
+			for _, r := range core.Returns(f) {
+				ln, ok := r.Results[0].(*ssa.Call)
+				if !ok || !core.IsBuiltin(&ln.Call, "len") {
+					continue
+				}
+				for _, rg := range fde.FindRangeOver(f, ln.Call.Args[0]) {
+					if rg.Done != r.Block() {
+						continue
+					}
+					// every latch block carries exactly one increment; every other exit of the loop returns 0
+					okIdiom := true
+					for _, p := range rg.Header.Preds {
+						if !rg.Header.Dominates(p) {
+							continue
+						}
+						if ibIncrements(m, p, ibF) != 1 {
+							okIdiom = false
+						}
+						exempt[p] = true
+					}
+					for blk := range loopBlocks(rg.Header) {
+						if rr := retOf(blk); rr != nil && !core.IsConstInt(rr.Results[0], 0) {
+							okIdiom = false
+						}
+					}
+					s.Check(okIdiom, f.Name()+": literal scanner counts one inspected byte per matched byte", c.Pos(r.Pos()), "range over the literal, one increment per iteration, returns len(literal)", "the literal scanner's inspected-byte count does not match the length it returns")
+				}
+			}
+			// straight-line regions: maximal chains of blocks linked by single-successor / single-predecessor jumps
+			region := map[*ssa.BasicBlock]*ssa.BasicBlock{}
+			for _, b := range f.Blocks {
+				region[b] = b
+			}
+			find := func(b *ssa.BasicBlock) *ssa.BasicBlock {
+				for region[b] != b {
+					b = region[b]
+				}
+				return b
+			}
+			for _, b := range f.Blocks {
+				if len(b.Succs) == 1 && len(b.Succs[0].Preds) == 1 && b.Succs[0] != b {
+					region[find(b.Succs[0])] = find(b)
+				}
+			}
+			type acc struct {
+				ib, n int64
+				pos   token.Pos
+			}
+			regs := map[*ssa.BasicBlock]*acc{}
+			var order []*ssa.BasicBlock
+			for _, b := range f.Blocks {
+				if exempt[b] {
+					continue
+				}
+				r := find(b)
+				a := regs[r]
+				if a == nil {
+					a = &acc{}
+					regs[r] = a
+					order = append(order, r)
+				}
+				a.ib += int64(ibIncrements(m, b, ibF))
+				for _, in := range b.Instrs {
+					bo, ok := in.(*ssa.BinOp)
+					if !ok || bo.Op != token.ADD || !chain[bo] {
+						continue
+					}
+					if kx, okx := core.ConstInt(bo.X); okx {
+						if ky, oky := core.ConstInt(bo.Y); oky {
+							a.n += kx + ky // constant base (e.g. 0 + 1)
+							if a.pos == token.NoPos {
+								a.pos = bo.Pos()
+							}
+							continue
+						}
+					}
+					if k, ok := core.ConstInt(bo.Y); ok && chain[bo.X] {
+						a.n += k
+						if a.pos == token.NoPos {
+							a.pos = bo.Pos()
+						}
+					} else if k, ok := core.ConstInt(bo.X); ok && chain[bo.Y] {
+						a.n += k
+					}
+				}
+				if a.pos == token.NoPos {
+					for _, in := range b.Instrs {
+						if in.Pos().IsValid() {
+							a.pos = in.Pos()
+							break
+						}
+					}
+				}
+			}
+			for _, r := range order {
+				a := regs[r]
+				if a.ib == 0 && a.n == 0 {
+					continue
+				}
+				key := fmt.Sprintf("%s: region b%d", f.Name(), r.Index)
+				s.Check(a.ib == a.n, key, c.Pos(a.pos), fmt.Sprintf("%d consumed / %d inspected", a.n, a.ib),
+					fmt.Sprintf("the consumed count grows by %d here but the inspected-bytes counter by %d: on a successful parse the two no longer agree, so a truncated valid document is rejected (inspected < len) or garbage after the cut is accepted", a.n, a.ib))
+			}
+		}
+	}}
+
+func ibIncrements(m *jsonModel, b *ssa.BasicBlock, ibF int) int {
+	n := 0
+	for _, in := range b.Instrs {
+		st, ok := in.(*ssa.Store)
+		if !ok {
+			continue
+		}
+		fa, ok := st.Addr.(*ssa.FieldAddr)
+		if !ok || fa.Field != ibF || !m.isState(fa.X.Type()) {
+			continue
+		}
+		if bo, ok := st.Val.(*ssa.BinOp); ok && bo.Op == token.ADD && core.IsConstInt(bo.Y, 1) {
+			n++
+		}
+	}
+	return n
+}
